@@ -75,6 +75,9 @@ Accepts(op, L, T, o) ==
               /\ (op.via = "align" => SameLdr(o.res, L))
               \* average (C09 in a session): n * centre voxel of the average = sum of the rows' identity codes
               /\ (op.via = "average" => o.avg_n = FoldLeft(LAMBDA acc, c : acc + c, 0, o.codes) /\ Len(o.codes) = NRows(L.tab))
+    \* fork: a second object is derived WITHOUT new molecules (copy / replace(order=...) / binning(1) / reshape); it becomes the
+    \* receiver, the old object stays alive as the sibling.  swap: the user goes back to the sibling.
+    [] op.name \in {"fork", "swap"} -> o.err = "" /\ Untouched(L, T, o) /\ SameLdr(o.res, L)
     [] op.name = "groupby" ->
          IF NRows(L.tab) = 0 THEN Untouched(L, T, o)
          ELSE /\ o.err = "" /\ Untouched(L, T, o)
@@ -84,6 +87,7 @@ Accepts(op, L, T, o) ==
 Why(op, L, T, o) ==
   IF Accepts(op, L, T, o) THEN "ok"
   ELSE IF o.err # "" /\ ~(op.name = "derive" /\ TabMustFail(op.how, L.tab)) THEN "UnexpectedError"
+  ELSE IF op.name \in {"fork", "swap"} /\ Untouched(L, T, o) THEN "ForkedLoaderDiffers"
   ELSE IF op.name # "add_tomogram" /\ ~Untouched(L, T, o) THEN "ParentMutated"
   ELSE IF op.name = "add_tomogram" /\ ~SameTab(o.T, T) THEN "OperandMutated"
   ELSE IF op.name = "add_tomogram" THEN "WrongRegistry"
@@ -96,5 +100,12 @@ Why(op, L, T, o) ==
   ELSE IF op.name = "groupby" /\ \E i \in 1..Len(o.groups) : ~ObsOk(o.groups[i].ldr, o.groups[i].obs) THEN "GroupRowNotAligned"
   ELSE "GroupsNotPartition"
 
+(* the sibling of a fork is a separate object: no later operation on the receiver may change it (registry, rows, what its
+   rows load), and vice versa *)
+SiblingWhy(S, o) ==
+  IF S.kind = "none" THEN "ok"
+  ELSE IF ~SameLdr(o.S, S) THEN "EarlierObjectAltered"
+  ELSE IF NRows(S.tab) > 0 /\ S.bin = 1 /\ o.sobs # LoadP(S) THEN "EarlierObjectRowsWrong"
+  ELSE "ok"
 Ctx(op, L) == IF Interleaved(L) THEN "interleaved" ELSE "contiguous"
 =============================================================================
